@@ -75,6 +75,9 @@ def forge_v2(spec, device_id, frame, seed):
     if k == "v2_trunc":
         p = codec.v2_encode(device_id, frame, magic=b"\x20\x80")
         return p[:max(1, spec["n"] % len(p))]
+    if k == "v2_trailing":
+        # an intact packet with surplus bytes behind it (a second marker, the start of another packet, padding)
+        return codec.v2_encode(device_id, frame, magic=b"\x20\x80") + bytes.fromhex(spec["hex"])
     if k == "random":
         return _rb(seed, spec["n"])
     if k == "empty_frame":
